@@ -92,6 +92,22 @@ Definition ns_pkg : list N :=
   Eval vm_compute in s2l "http://schemas.openxmlformats.org/package/2006/relationships"%string.
 Definition t_rel : list N :=
   Eval vm_compute in s2l "http://schemas.openxmlformats.org/officeDocument/2006/relationships/worksheet"%string.
+(* relationship types that name a sheet part: ECMA-376 transitional, ISO strict, Microsoft *)
+Definition t_ws : list N := t_rel.
+Definition t_ws_strict : list N :=
+  Eval vm_compute in s2l "http://purl.oclc.org/ooxml/officeDocument/relationships/worksheet"%string.
+Definition t_cs : list N :=
+  Eval vm_compute in s2l "http://schemas.openxmlformats.org/officeDocument/2006/relationships/chartsheet"%string.
+Definition t_cs_strict : list N :=
+  Eval vm_compute in s2l "http://purl.oclc.org/ooxml/officeDocument/relationships/chartsheet"%string.
+Definition t_ds : list N :=
+  Eval vm_compute in s2l "http://schemas.openxmlformats.org/officeDocument/2006/relationships/dialogsheet"%string.
+Definition t_ds_strict : list N :=
+  Eval vm_compute in s2l "http://purl.oclc.org/ooxml/officeDocument/relationships/dialogsheet"%string.
+Definition t_xlm : list N :=
+  Eval vm_compute in s2l "http://schemas.microsoft.com/office/2006/relationships/xlMacrosheet"%string.
+Definition t_xlim : list N :=
+  Eval vm_compute in s2l "http://schemas.microsoft.com/office/2006/relationships/xlIntlMacrosheet"%string.
 (* xlsb *)
 Definition s_thiswb : list N := Eval vm_compute in s2l "#ThisWorkbook"%string.
 Definition s_invalid : list N := Eval vm_compute in s2l "#InvalidWorkSheet"%string.
@@ -188,13 +204,13 @@ Fixpoint get_attribute (a : attrs) (k : str) : option str :=
   end.
 
 (* BTreeMap / HashMap used through insert + get only: an association list, newest first *)
-Definition smap := list (str * str).
-Fixpoint map_get (k : str) (m : smap) : option str :=
+Definition amap (V : Type) := list (str * V).
+Fixpoint map_get (V : Type) (k : str) (m : amap V) : option V :=
   match m with
   | [] => None
   | (k', v) :: r => if str_eqb k' k then Some v else map_get k r
   end.
-Definition map_insert (k v : str) (m : smap) : smap := (k, v) :: m.
+Definition map_insert (V : Type) (k : str) (v : V) (m : amap V) : amap V := (k, v) :: m.
 
 (* path.split('/').nth(1) *)
 Fixpoint after_slash (s : str) : option str :=
@@ -220,26 +236,45 @@ Definition kind_of_path (p : str) : option kind :=
   | None => None
   end.
 
+(* SheetType::from_relationship_type (lib.rs): the kind of sheet a workbook relationship Type
+   names; None for every other type *)
+Definition kind_of_rel_type (t : str) : option kind :=
+  if str_eqb t t_ws || str_eqb t t_ws_strict then Some WorkSheet
+  else if str_eqb t t_cs || str_eqb t t_cs_strict then Some ChartSheet
+  else if str_eqb t t_ds || str_eqb t t_ds_strict then Some DialogSheet
+  else if str_eqb t t_xlm || str_eqb t t_xlim then Some MacroSheet
+  else None.
+
+(* BTreeMap<Vec<u8>, (String, Option<SheetType>)>: relationship id -> (Target, sheet kind named by
+   the Type) *)
+Definition rmap := amap (str * option kind).
+
+(* `match rel_typ { Some(t) => t, None => match path.split('/').nth(1) { .. } }`: the
+   relationship type decides; the folder of the part only when the type names no sheet kind *)
+Definition sheet_kind (rt : option kind) (path : str) : option kind :=
+  match rt with Some k => Some k | None => kind_of_path path end.
+
 (* ===================================================================================== *)
 (** * xlsx *)
 
-(* read_relationships: Start local_name "Relationship": Id (raw bytes, appended), Target;
-   End local_name "Relationships" ends; Eof is an error *)
-Fixpoint rel_attrs (a : attrs) (id target : str) : str * str :=
+(* read_relationships: Start local_name "Relationship": Id (raw bytes, appended), Target, Type
+   (through from_relationship_type); End local_name "Relationships" ends; Eof is an error *)
+Fixpoint rel_attrs (a : attrs) (id target : str) (typ : option kind) : str * (str * option kind) :=
   match a with
-  | [] => (id, target)
+  | [] => (id, (target, typ))
   | (k, v) :: r =>
-    if str_eqb k a_Id then rel_attrs r (id ++ v) target
-    else if str_eqb k a_Target then rel_attrs r id v
-    else rel_attrs r id target
+    if str_eqb k a_Id then rel_attrs r (id ++ v) target typ
+    else if str_eqb k a_Target then rel_attrs r id v typ
+    else if str_eqb k a_Type then rel_attrs r id target (kind_of_rel_type v)
+    else rel_attrs r id target typ
   end.
 
-Fixpoint xlsx_read_relationships (evs : list event) (m : smap) : outcome smap :=
+Fixpoint xlsx_read_relationships (evs : list event) (m : rmap) : outcome rmap :=
   match evs with
   | [] => Err E_XML_EOF
   | Start n a :: r =>
     if str_eqb (local_name n) k_Relationship then
-      let '(id, t) := rel_attrs a [] [] in xlsx_read_relationships r (map_insert id t m)
+      let '(id, tg) := rel_attrs a [] [] None in xlsx_read_relationships r (map_insert id tg m)
     else xlsx_read_relationships r m
   | End n :: r =>
     if str_eqb (local_name n) k_Relationships then Ok m else xlsx_read_relationships r m
@@ -257,24 +292,24 @@ Definition xlsx_path (r : str) : str :=
 Definition is_rel_id (k : str) : bool :=
   match after_colon k with Some l => str_eqb l a_id | None => false end.
 
-(* the attribute loop of a <sheet> element *)
-Fixpoint sheet_attrs (rels : smap) (a : attrs) (name path : str) (v : vis)
-  : outcome (str * str * vis) :=
+(* the attribute loop of a <sheet> element; rt = rel_typ, the kind the relationship type names *)
+Fixpoint sheet_attrs (rels : rmap) (a : attrs) (name path : str) (v : vis) (rt : option kind)
+  : outcome (str * str * vis * option kind) :=
   match a with
-  | [] => Ok (name, path, v)
+  | [] => Ok (name, path, v, rt)
   | (k, val) :: r =>
-    if str_eqb k a_name then sheet_attrs rels r val path v
+    if str_eqb k a_name then sheet_attrs rels r val path v rt
     else if str_eqb k a_state then
-      if str_eqb val v_visible then sheet_attrs rels r name path Visible
-      else if str_eqb val v_hidden then sheet_attrs rels r name path Hidden
-      else if str_eqb val v_veryHidden then sheet_attrs rels r name path VeryHidden
+      if str_eqb val v_visible then sheet_attrs rels r name path Visible rt
+      else if str_eqb val v_hidden then sheet_attrs rels r name path Hidden rt
+      else if str_eqb val v_veryHidden then sheet_attrs rels r name path VeryHidden rt
       else Err E_UNREC
     else if is_rel_id k then
       match map_get val rels with
       | None => Err E_RELNF
-      | Some t => sheet_attrs rels r name (xlsx_path t) v
+      | Some (t, ty) => sheet_attrs rels r name (xlsx_path t) v ty
       end
-    else sheet_attrs rels r name path v
+    else sheet_attrs rels r name path v rt
   end.
 
 Inductive xmode : Type :=
@@ -287,7 +322,7 @@ Definition date1904_value (a : attrs) : bool :=
   | None => false
   end.
 
-Fixpoint xlsx_wb_run (rels : smap) (evs : list event) (mode : xmode) (st : parsed)
+Fixpoint xlsx_wb_run (rels : rmap) (evs : list event) (mode : xmode) (st : parsed)
   : outcome parsed :=
   match evs with
   | [] => Err E_XML_EOF
@@ -306,9 +341,9 @@ Fixpoint xlsx_wb_run (rels : smap) (evs : list event) (mode : xmode) (st : parse
       | Start n a =>
         let l := local_name n in
         if str_eqb l k_sheet then
-          do x <- sheet_attrs rels a [] [] Visible;
-          let '(name, path, v) := x in
-          match kind_of_path path with
+          do x <- sheet_attrs rels a [] [] Visible None;
+          let '(name, path, v, rt) := x in
+          match sheet_kind rt path with
           | None => Err E_UNREC
           | Some k => xlsx_wb_run rels r XMain (add_sheet st (mkMeta name v k) path)
           end
@@ -327,7 +362,7 @@ Fixpoint xlsx_wb_run (rels : smap) (evs : list event) (mode : xmode) (st : parse
     end
   end.
 
-Definition xlsx_read_workbook (rels : smap) (evs : list event) : outcome parsed :=
+Definition xlsx_read_workbook (rels : rmap) (evs : list event) : outcome parsed :=
   xlsx_wb_run rels evs XMain parsed0.
 
 (* Xlsx::new as far as metadata goes: relationships first, then the workbook part *)
@@ -338,23 +373,25 @@ Definition xlsx_open (rel_evs wb_evs : list event) : outcome parsed :=
 (* ===================================================================================== *)
 (** * xlsb *)
 
-(* read_relationships: exact name "Relationship"; inserted only with both Id and Target; runs
-   to Eof *)
-Fixpoint brel_attrs (a : attrs) (id target : option str) : option str * option str :=
+(* read_relationships: exact name "Relationship"; inserted only with both Id and Target (with the
+   sheet kind its Type names, if any); runs to Eof *)
+Fixpoint brel_attrs (a : attrs) (id target : option str) (typ : option kind)
+  : option str * option str * option kind :=
   match a with
-  | [] => (id, target)
+  | [] => (id, target, typ)
   | (k, v) :: r =>
-    if str_eqb k a_Id then brel_attrs r (Some v) target
-    else if str_eqb k a_Target then brel_attrs r id (Some v)
-    else brel_attrs r id target
+    if str_eqb k a_Id then brel_attrs r (Some v) target typ
+    else if str_eqb k a_Target then brel_attrs r id (Some v) typ
+    else if str_eqb k a_Type then brel_attrs r id target (kind_of_rel_type v)
+    else brel_attrs r id target typ
   end.
-Fixpoint xlsb_read_relationships (evs : list event) (m : smap) : smap :=
+Fixpoint xlsb_read_relationships (evs : list event) (m : rmap) : rmap :=
   match evs with
   | [] => m
   | Start n a :: r =>
     if str_eqb n k_Relationship then
-      match brel_attrs a None None with
-      | (Some id, Some t) => xlsb_read_relationships r (map_insert id t m)
+      match brel_attrs a None None None with
+      | (Some id, Some t, ty) => xlsb_read_relationships r (map_insert id (t, ty) m)
       | _ => xlsb_read_relationships r m
       end
     else xlsb_read_relationships r m
@@ -421,7 +458,7 @@ Definition wide_str_m (buf : bytes) : outcome (str * N) :=
   if len buf <? 4 then Err E_WIDESTR else Utf16.wide_str buf.
 
 (* the BrtBundleSh arm on the record body; None = the record is skipped (relationship id NULL) *)
-Definition bundle_sh (rels : smap) (d : bytes) : outcome (option (meta * str)) :=
+Definition bundle_sh (rels : rmap) (d : bytes) : outcome (option (meta * str)) :=
   let n := len d in
   if n <? 12 then Err E_UNREC else                       (* check_len *)
   do rel_len <- read_u32 (drop 8 d);
@@ -432,13 +469,13 @@ Definition bundle_sh (rels : smap) (d : bytes) : outcome (option (meta * str)) :
   if bom_prefix relid_b then Err E_UNMODELLED else
   match map_get (enc_decode relid_b) rels with
   | None => Err E_UNREC                                  (* relationships.get(..).ok_or(..) *)
-  | Some target =>
+  | Some (target, rt) =>
     let path := s_xl_slash ++ target in
     do hs <- read_u32 d;
     match xlsb_vis hs with
     | None => Err E_UNREC
     | Some v =>
-      match kind_of_path path with
+      match sheet_kind rt path with
       | None => Err E_UNREC
       | Some k =>
         do w <- wide_str_m (drop (12 + rl) d);
@@ -448,7 +485,7 @@ Definition bundle_sh (rels : smap) (d : bytes) : outcome (option (meta * str)) :
   end.
 
 (* first loop of read_workbook: up to BrtEndBundleShs *)
-Fixpoint xlsb_loop1 (fuel : nat) (rels : smap) (s : bytes) (st : parsed)
+Fixpoint xlsb_loop1 (fuel : nat) (rels : rmap) (s : bytes) (st : parsed)
   : outcome (parsed * bytes) :=
   match fuel with
   | O => OutOfFuel
@@ -490,7 +527,8 @@ Definition xti_name (sheets : list str) (xti : bytes) : outcome str :=
   Ok (if (p =? -2)%Z then s_thiswb
       else if (p =? -1)%Z then s_invalid
       else if (0 <=? p)%Z then
-        match nthN sheets (Z.to_N p) with Some nm => nm | None => s_unknown end
+        (* quote_sheet_name(&sheets[p].0): the name as formula text writes it (Ptg.v) *)
+        match nthN sheets (Z.to_N p) with Some nm => Ptg.quote_sheet_name nm | None => s_unknown end
       else s_unknown).
 
 (* firstn for a count that comes from the file (never converted to a huge unary number) *)
@@ -551,7 +589,7 @@ Fixpoint xlsb_loop2 (fuel : nat) (s : bytes) (sheets ext : list str)
       xlsb_loop2 f s2 sheets ext names
   end.
 
-Definition xlsb_read_workbook (rels : smap) (s : bytes) : outcome parsed :=
+Definition xlsb_read_workbook (rels : rmap) (s : bytes) : outcome parsed :=
   do r <- xlsb_loop1 (S (length s)) rels s parsed0;
   let '(st, s1) := r in
   do names <- xlsb_loop2 (S (length s1)) s1 (map fst (p_paths st)) [] [];
@@ -573,7 +611,7 @@ Definition xls_sheet_metadata (data : bytes) : outcome (N * meta) :=
   if len data <? 6 then Err E_LEN_ else
   do pos <- read_u32 data;
   do v <- of_option (nth_error data 4);
-  do vv <- match N.land v 63 with
+  do vv <- match N.land v 3 with
            | 0 => Ok Visible | 1 => Ok Hidden | 2 => Ok VeryHidden | _ => Err E_UNREC
            end;
   do t <- of_option (nth_error data 5);
@@ -709,13 +747,14 @@ Fixpoint xls_globals (recs : list (outcome rec_item)) (st : xls_state) : outcome
     else xls_globals rest st
   end.
 
-(* xtis.get(i).and_then(|xti| sheet_names.get(xti.itab_first as usize)).map_or("#REF", ..) *)
+(* xtis.get(i).and_then(|xti| fmla_sheet_names.get(xti.itab_first as usize)).map_or("#REF", ..)
+   with fmla_sheet_names = sheet_names.map(quote_sheet_name) *)
 Definition xls_sheet_of (st : xls_state) (i : N) : str :=
   match nthN (xg_xtis st) i with
   | Some (_, first, _) =>
     if first <? 32768 then
       match nthN (xg_sheets st) first with
-      | Some pm => m_name (snd pm)
+      | Some pm => Ptg.quote_sheet_name (m_name (snd pm))
       | None => s_ref
       end
     else s_ref
@@ -728,7 +767,7 @@ Definition xls_sheet_of (st : xls_state) (i : N) : str :=
      let mut cpf = (rgce.len() as u16).to_le_bytes().to_vec(); cpf.extend_from_slice(&rgce);
      if let Ok(full) = parse_formula(&cpf, &fmla_sheet_names, &lbl_names, &xtis, &encoding) { return (name, full) } *)
 Definition xls_formula_env (st : xls_state) : Ptg.xls_env :=
-  Ptg.Build_xls_env (map (fun pm => m_name (snd pm)) (xg_sheets st))
+  Ptg.Build_xls_env (map (fun pm => Ptg.quote_sheet_name (m_name (snd pm))) (xg_sheets st))
                     (map (fun nf => fst (fst nf)) (xg_names st)) (xg_xtis st).
 
 Definition xls_first_token_text (st : xls_state) (f : option N * str) : str :=
@@ -908,8 +947,22 @@ Definition kind_dir (k : kind) : str :=
   end.
 Definition tprefix (style : N) : str :=
   match style with 0 => [] | 1 => s_slash_xl_slash | _ => s_xl_slash end.
-Definition xlsx_target (style : N) (k : kind) (file : str) : str :=
-  tprefix style ++ kind_dir k ++ SLASH :: file.
+(* the Target attribute of a sheet relationship: the part name (relative to xl/; ANY name: the
+   folders worksheets/, chartsheets/ … are a convention of the producers, not of the format) in
+   one of the three spellings *)
+Definition xlsx_target (style : N) (part : str) : str := tprefix style ++ part.
+
+(* the Type attribute of the relationship of a sheet of kind k (ECMA-376 Part 1 12.3.24 / 12.3.2 /
+   12.3.7, in the transitional or the strict namespace; MS-OFFMACRO2 2.2.1.4 / 2.2.1.5 for the two
+   macro sheet flavours) — THIS is what tells the kind *)
+Definition kind_rel_type (alt : bool) (k : kind) : str :=
+  match k with
+  | WorkSheet => if alt then t_ws_strict else t_ws
+  | ChartSheet => if alt then t_cs_strict else t_cs
+  | DialogSheet => if alt then t_ds_strict else t_ds
+  | MacroSheet => if alt then t_xlim else t_xlm
+  | Vba => []
+  end.
 
 Definition perm3 (A : Type) (p : N) (a b c : list A) : list A :=
   match p with
@@ -924,8 +977,11 @@ Fixpoint split_cuts (cuts : list nat) (t : str) : list str :=
   end.
 
 Record xs_choice : Type := mkXs {
-  xs_rid : str; xs_tstyle : N; xs_file : str; xs_perm : N; xs_omit : bool;
-  xs_pre : attrs; xs_post : attrs
+  xs_rid : str; xs_tstyle : N;
+  xs_part : str;                   (* part name relative to xl/: any folder(s), any file name *)
+  xs_perm : N; xs_omit : bool;
+  xs_pre : attrs; xs_post : attrs;
+  xs_talt : bool                   (* strict namespace / xlIntlMacrosheet spelling of the Type *)
 }.
 Record xn_choice : Type := mkXn {
   xn_cuts : list nat; xn_cdata : bool; xn_comment : bool; xn_pre : attrs; xn_post : attrs
@@ -933,7 +989,7 @@ Record xn_choice : Type := mkXn {
 Record xlsx_choice : Type := mkXc {
   xc_pfx : str;                    (* prefix of the main namespace ([] = default namespace) *)
   xc_rpfx : str;                   (* prefix bound to the relationships namespace *)
-  xc_rels : list (str * str);      (* the relationships part, in file order: (Id, Target) *)
+  xc_rels : list (str * (str * str));   (* the relationships part, in file order: (Id, (Target, Type)) *)
   xc_sheets : list xs_choice;
   xc_names : list xn_choice;
   xc_omit_pr : bool;               (* no workbookPr element when the flag is false *)
@@ -987,15 +1043,21 @@ Definition xlsx_wb_events (c : xlsx_choice) (wb : workbook str) : list event :=
   ++ j ++ [End (qn pfx k_definedNames)] ++ j
   ++ [End (qn pfx k_workbook)].
 
-Definition rels_events (pfx : str) (junk : list event) (l : list (str * str)) : list event :=
+Definition rels_events (pfx : str) (junk : list event) (l : list (str * (str * str))) : list event :=
   [Other; Start (qn pfx k_Relationships) [(xmlns_attr pfx, ns_pkg)]]
   ++ flat_map (fun it => junk ++ [Start (qn pfx k_Relationship)
-                                        [(a_Id, fst it); (a_Type, t_rel); (a_Target, snd it)];
+                                        [(a_Id, fst it); (a_Type, snd (snd it));
+                                         (a_Target, fst (snd it))];
                                   End (qn pfx k_Relationship)]) l
   ++ junk ++ [End (qn pfx k_Relationships)].
 
+(* the relationships part as a lookup table: a later entry with the same Id replaces an earlier
+   one *)
+Definition rels_raw (l : list (str * (str * str))) : amap (str * str) := rev l.
 (* the map the reader builds from a relationships part listing l *)
-Definition rels_map (l : list (str * str)) : smap := rev l.
+Definition rel_entry (it : str * (str * str)) : str * (str * option kind) :=
+  (fst it, (fst (snd it), kind_of_rel_type (snd (snd it)))).
+Definition rels_map (l : list (str * (str * str))) : rmap := rev (map rel_entry l).
 
 Definition junk_ok_xlsx (e : event) : bool :=
   match e with
@@ -1020,10 +1082,22 @@ Definition xlsx_kind_ok (k : kind) : bool := match k with Vba => false | _ => tr
 Definition keys_ok (a : attrs) : bool :=
   forallb (fun kv => negb (str_eqb (fst kv) a_name || str_eqb (fst kv) a_state || is_rel_id (fst kv))) a.
 
-Definition xs_legal (rels : smap) (s : meta) (ch : xs_choice) : bool :=
+(* a part name written as a relative Target must not itself begin with xl/ or /xl/ (the reader
+   takes such a Target for one of the other two spellings) *)
+Definition xs_part_ok (style : N) (part : str) : bool :=
+  match style with
+  | 0 => negb (starts_with s_slash_xl_slash part || starts_with s_xl_slash part)
+  | _ => true
+  end.
+
+(* the relationship the sheet element points at has the part as its Target and the Type of the
+   sheet's kind *)
+Definition xs_legal (rels : amap (str * str)) (s : meta) (ch : xs_choice) : bool :=
   xlsx_kind_ok (m_kind s)
+  && xs_part_ok (xs_tstyle ch) (xs_part ch)
   && match map_get (xs_rid ch) rels with
-     | Some t => str_eqb t (xlsx_target (xs_tstyle ch) (m_kind s) (xs_file ch))
+     | Some (t, ty) => str_eqb t (xlsx_target (xs_tstyle ch) (xs_part ch))
+                       && str_eqb ty (kind_rel_type (xs_talt ch) (m_kind s))
      | None => false
      end
   && keys_ok (xs_pre ch) && keys_ok (xs_post ch).
@@ -1042,7 +1116,7 @@ Definition xlsx_legal (c : xlsx_choice) (wb : workbook str) : bool :=
   && no_colon (xc_rpfx c) && negb (match xc_rpfx c with [] => true | _ => false end)
   && forallb junk_ok_xlsx (xc_junk c)
   && attr_free [a_date1904] (xc_pr_extra c)
-  && forallb2 (xs_legal (rels_map (xc_rels c))) (wb_sheets wb) (xc_sheets c)
+  && forallb2 (xs_legal (rels_raw (xc_rels c))) (wb_sheets wb) (xc_sheets c)
   && forallb2 (fun _ ch => xn_legal ch) (wb_names wb) (xc_names c).
 
 (* no known class is left for xlsx: F30 (relationship-id prefix) and the CDATA defined name were
@@ -1065,9 +1139,14 @@ Definition brecs (l : list (N * bytes)) : bytes := flat_map (fun r => brec (fst 
 Definition xlsb_vis_code (v : vis) : N :=
   match v with Visible => 0 | Hidden => 1 | VeryHidden => 2 end.
 
-Record bs_choice : Type := mkBs { bs_rid : str; bs_file : str; bs_tabid : N }.
+Record bs_choice : Type := mkBs {
+  bs_rid : str;
+  bs_part : str;                       (* part name relative to xl/: any folder(s), any file name *)
+  bs_tabid : N;
+  bs_talt : bool                       (* strict namespace / xlIntlMacrosheet spelling of the Type *)
+}.
 Record xlsb_choice : Type := mkBc {
-  bc_rels : list (str * str);          (* relationships part in file order *)
+  bc_rels : list (str * (str * str));  (* relationships part in file order: (Id, (Target, Type)) *)
   bc_sheets : list bs_choice;
   bc_junk1 : list (N * bytes);         (* ignorable records of the first part *)
   bc_junk2 : list (N * bytes);         (* ignorable records after BrtEndBundleShs *)
@@ -1083,8 +1162,6 @@ Record xlsb_choice : Type := mkBc {
 Definition bundle_body (s : meta) (ch : bs_choice) : bytes :=
   le32 (xlsb_vis_code (m_vis s)) ++ le32 (bs_tabid ch) ++ Utf16.enc_wide (bs_rid ch)
   ++ Utf16.enc_wide (m_name s).
-Definition xlsb_target (k : kind) (file : str) : str := kind_dir k ++ SLASH :: file.
-
 Definition xti_bytes (x : N * N * N) : bytes :=
   le32 (fst (fst x)) ++ le32 (snd (fst x)) ++ le32 (snd x).
 
@@ -1112,7 +1189,7 @@ Definition xlsb_workbook_bin (c : xlsb_choice) (wb : workbook Ptg.expr) : bytes 
               (combine (wb_names wb) (bc_name_hdr c))
   ++ j2 ++ enc_type (bc_end c) ++ bc_tail c.
 
-Definition xlsb_rels_events (junk : list event) (l : list (str * str)) : list event :=
+Definition xlsb_rels_events (junk : list event) (l : list (str * (str * str))) : list event :=
   rels_events [] junk l.
 
 Definition xlsb_kind_ok (k : kind) : bool := match k with Vba => false | _ => true end.
@@ -1124,19 +1201,21 @@ Definition junk2_ok (r : N * bytes) : bool :=
   negb ((fst r =? 362) || (fst r =? 39) || is_end_type (fst r)) && (fst r <? 16384)
   && (len (snd r) <? 268435456).
 
-Definition bs_legal (rels : smap) (s : meta) (ch : bs_choice) : bool :=
+Definition bs_legal (rels : amap (str * str)) (s : meta) (ch : bs_choice) : bool :=
   xlsb_kind_ok (m_kind s) && name_ok (m_name s) && name_ok (bs_rid ch)
   && (bs_tabid ch <=? 4294967295)
   && (Utf16.utf16_len (m_name s) <? 65536) && (Utf16.utf16_len (bs_rid ch) <? 65536)
   && negb (bom_prefix (Utf16.bytes_le_of_units (Utf16.utf16_encode (bs_rid ch))))
   && match map_get (bs_rid ch) rels with
-     | Some t => str_eqb t (xlsb_target (m_kind s) (bs_file ch))
+     | Some (t, ty) => str_eqb t (bs_part ch)
+                       && str_eqb ty (kind_rel_type (bs_talt ch) (m_kind s))
      | None => false
      end.
 
-(* the sheet names the XTIs resolve to (legal XTIs point at sheets of this workbook) *)
+(* the sheet names the XTIs resolve to (legal XTIs point at sheets of this workbook), as formula
+   text writes them in front of '!' (Ptg.sheet_text: quoted when the grammar demands it) *)
 Definition spec_ext (wb_sheet_names : list str) (xtis : list (N * N * N)) : list str :=
-  map (fun x => match nthN wb_sheet_names (snd (fst x)) with Some n => n | None => [] end) xtis.
+  map (fun x => match nthN wb_sheet_names (snd (fst x)) with Some n => Ptg.sheet_text n | None => [] end) xtis.
 
 Section XlsbSpec.
 Variable show_f64 : N -> list N.
@@ -1171,7 +1250,7 @@ Definition hdr_legal (h : N * N * N) : bool :=
 
 Definition xlsb_legal (c : xlsb_choice) (wb : workbook Ptg.expr) : bool :=
   forallb junk1_ok (bc_junk1 c) && forallb junk2_ok (bc_junk2 c)
-  && forallb2 (bs_legal (rels_map (bc_rels c))) (wb_sheets wb) (bc_sheets c)
+  && forallb2 (bs_legal (rels_raw (bc_rels c))) (wb_sheets wb) (bc_sheets c)
   && (bc_flags_hi c <? 128)
   && (len (bc_prop_rest c) <? 268435455)
   && forallb (xti_legal (len (wb_sheets wb))) (bc_xtis c)
@@ -1233,7 +1312,7 @@ Definition xref_abs (x : xref) : bool :=
 Record ls_choice : Type := mkLs {
   ls_pos : N;                (* lbPlyPos *)
   ls_wide : bool;            (* 16-bit storage of the name *)
-  ls_hi : N                  (* the two unused top bits of the hsState byte *)
+  ls_hi : N                  (* the six unused upper bits of the hsState byte (MS-XLS 2.4.28) *)
 }.
 Record ln_choice : Type := mkLn {
   ln_wide : bool; ln_flags : N; ln_key : N; ln_itab : N
@@ -1257,7 +1336,7 @@ Definition units_of (s : str) : list N := Utf16.utf16_encode s.
 Definition bof_globals : bytes := [0; 6; 5; 0; 187; 13; 204; 7; 0; 0; 0; 0; 6; 3; 0; 0].
 
 Definition boundsheet (s : meta) (ch : ls_choice) : bytes :=
-  frame 133 (boundsheet_body (ls_pos ch) (xls_vis_code (m_vis s) + 64 * ls_hi ch)
+  frame 133 (boundsheet_body (ls_pos ch) (xls_vis_code (m_vis s) + 4 * ls_hi ch)
                              (xls_kind_code (m_kind s)) (ls_wide ch) (units_of (m_name s))).
 
 Definition lbl_body (n : str * xref) (ch : ln_choice) : bytes :=
@@ -1297,12 +1376,12 @@ Definition wide_ok (wide : bool) (s : str) : bool := wide || forallb (fun c => c
 
 Definition ls_legal (s : meta) (ch : ls_choice) : bool :=
   xls_kind_ok (m_kind s) && name_ok (m_name s) && (len (units_of (m_name s)) <=? 255)
-  && wide_ok (ls_wide ch) (m_name s) && (ls_pos ch <=? 4294967295) && (ls_hi ch <? 4).
+  && wide_ok (ls_wide ch) (m_name s) && (ls_pos ch <=? 4294967295) && (ls_hi ch <? 64).
 
 (* the sheet an XTI names *)
 Definition spec_xti_sheet (sheets : list meta) (xtis : list (N * N * N)) (i : N) : str :=
   match nthN xtis i with
-  | Some x => match nthN sheets (snd (fst x)) with Some m => m_name m | None => [] end
+  | Some x => match nthN sheets (snd (fst x)) with Some m => Ptg.sheet_text (m_name m) | None => [] end
   | None => []
   end.
 
@@ -1438,10 +1517,8 @@ Definition spec_parsed (sheets : list meta) (paths : list (str * str)) (names : 
            (f : bool) : parsed := mkParsed sheets paths names f.
 
 Definition xlsx_paths (c : xlsx_choice) (wb : workbook str) : list (str * str) :=
-  map (fun sc => (m_name (fst sc),
-                  s_xl_slash ++ kind_dir (m_kind (fst sc)) ++ SLASH :: xs_file (snd sc)))
+  map (fun sc => (m_name (fst sc), s_xl_slash ++ xs_part (snd sc)))
       (combine (wb_sheets wb) (xc_sheets c)).
 Definition xlsb_paths (c : xlsb_choice) (wb : workbook Ptg.expr) : list (str * str) :=
-  map (fun sc => (m_name (fst sc),
-                  s_xl_slash ++ kind_dir (m_kind (fst sc)) ++ SLASH :: bs_file (snd sc)))
+  map (fun sc => (m_name (fst sc), s_xl_slash ++ bs_part (snd sc)))
       (combine (wb_sheets wb) (bc_sheets c)).
